@@ -171,6 +171,18 @@ func init() {
 							need = []string{"SearchParams:url"}
 						}
 						var missing []string
+						// a whole-struct copy from another object of the same type initialises every field
+						wholeCopy := false
+						for _, r := range *al.Referrers() {
+							if st, ok := r.(*ssa.Store); ok && st.Addr == ssa.Value(al) {
+								if ld, ok := st.Val.(*ssa.UnOp); ok && namedOf(ld.X.Type()) == tn {
+									wholeCopy = true
+								}
+							}
+						}
+						if wholeCopy {
+							need = nil
+						}
 						for _, el := range need {
 							found := false
 							for _, r := range *al.Referrers() {
@@ -192,7 +204,7 @@ func init() {
 						}
 						bk := "alloc/" + core.FuncName(f) + "/" + tn
 						n[bk]++
-						s.Check(len(missing) == 0, fmt.Sprintf("%s#%d", bk, n[bk]), c.P.Pos(al.Pos()), "initialises "+strings.Join(need, ", "), "allocates a "+tn+" without initialising "+strings.Join(missing, ", "))
+						s.Check(len(missing) == 0, fmt.Sprintf("%s#%d", bk, n[bk]), c.P.Pos(al.Pos()), "initialises "+strings.Join(need, ", ")+map[bool]string{true: "(copy of a whole object)", false: ""}[wholeCopy], "allocates a "+tn+" without initialising "+strings.Join(missing, ", "))
 					}
 				}
 			}
@@ -223,6 +235,36 @@ func init() {
 							s.Check(x.CommaOk, mk("assert"), pos, "comma-ok type assertion", "single-result type assertion panics on a mismatch")
 						case *ssa.MapUpdate:
 							_, fresh := x.Map.(*ssa.MakeMap)
+							if ld, ok := x.Map.(*ssa.UnOp); ok && !fresh {
+								// a map held in a local cell (captured by a closure) that is written once, with make(...)
+								var cell ssa.Value = ld.X
+								if fv, ok := cell.(*ssa.FreeVar); ok && f.Parent() != nil {
+									// the enclosing function's cell
+									for _, b2 := range f.Parent().Blocks {
+										for _, i2 := range b2.Instrs {
+											if mc, ok := i2.(*ssa.MakeClosure); ok && mc.Fn == ssa.Value(f) {
+												for k, v := range f.FreeVars {
+													if v == fv && k < len(mc.Bindings) {
+														cell = mc.Bindings[k]
+													}
+												}
+											}
+										}
+									}
+								}
+								if al, ok := cell.(*ssa.Alloc); ok {
+									stores, made := 0, 0
+									for _, r := range *al.Referrers() {
+										if st, ok := r.(*ssa.Store); ok && st.Addr == ssa.Value(al) {
+											stores++
+											if _, ok := st.Val.(*ssa.MakeMap); ok {
+												made++
+											}
+										}
+									}
+									fresh = stores == 1 && made == 1
+								}
+							}
 							s.Check(fresh, mk("mapwrite"), pos, "map made in this function", "write to a map that may be nil")
 						case *ssa.BinOp:
 							switch x.Op {
